@@ -165,6 +165,16 @@ class Gen:
         r = self.rng
         lines = []
         total = 64
+        if shape == 'padding' and not union:
+            # only void padding fields: the structure has fields but no members (a reserved placeholder layout)
+            lines = ['void%d' % r.choice([1, 8, 16, 64]) for _ in range(r.randrange(1, 3))]
+            total = 64 * len(lines) + 64
+            total = (total + 7) // 8
+            if r.random() < 0.6:
+                lines.append('@sealed')
+            else:
+                lines.append('@extent %d * 8' % (total + r.choice([0, 8])))
+            return '\n'.join(lines) + '\n', total * 8 + 64
         if shape == 'empty' and not union:
             nf = 0
         elif union:
@@ -201,11 +211,11 @@ class Gen:
     def definition(self, deps: typing.List[typing.Tuple[str, int]], deprecated: bool) -> typing.Tuple[str, str, int]:
         r = self.rng
         kind = r.choice(['struct', 'struct', 'struct', 'union', 'service', 'service'])
-        shape = r.choice(['normal', 'normal', 'empty', 'wide', 'consts'])
+        shape = r.choice(['normal', 'normal', 'empty', 'padding', 'wide', 'consts'])
         head = '@deprecated\n' if deprecated else ''
         if kind == 'service':
             b1, _ = self.body(deps, shape, r.random() < 0.4)
-            b2, bound = self.body(deps, r.choice(['normal', 'empty', 'wide']), r.random() < 0.4)
+            b2, bound = self.body(deps, r.choice(['normal', 'empty', 'padding', 'wide']), r.random() < 0.4)
             txt = head + b1 + '---\n' + b2
         else:
             b1, bound = self.body(deps, shape, kind == 'union')
@@ -278,6 +288,10 @@ def corpus() -> typing.List[dict]:
                            'float16 H = 65504.0\nfloat64 D = 4.9406564584124654e-324\nuint8 C = \'a\'\nbool T = true\n@sealed\n',
         'Empty.1.0.dsdl': '@sealed\n',
         'EmptyExt.1.0.dsdl': '@extent 0\n',
+        'Pad.1.0.dsdl': 'void64\n@sealed\n',
+        'PadExt.1.0.dsdl': 'void3\nvoid13\n@extent 16 * 8\n',
+        'PadSvc.1.0.dsdl': 'void8\n@sealed\n---\nvoid16\n@extent 64 * 8\n',
+        'PadUser.1.0.dsdl': 'regr.Pad.1.0 p\nregr.PadExt.1.0[2] q\n@sealed\n',
         'Wide.1.0.dsdl': 'uint64[16] a\nint64[<=16] b\nfloat64[8] c\nbool[64] d\nbool[<=64] e\nregr.Empty.1.0[2] f\nregr.Limits.1.0[<=2] g\n@extent 8192 * 8\n',
         'nested/deeper/than/this/Leaf.1.0.dsdl': 'regr.Wide.1.0 w\nregr.nested.Mid.1.0 m\n@sealed\n',
         'nested/Mid.1.0.dsdl': 'float16 h\nvoid7\nuint1 bit\n@sealed\n',
